@@ -37,8 +37,8 @@ Print Assumptions C06_L0_both_passes_not_idempotent_refuted.
 Theorem C06_L0_call_form_pass_idempotent : forall m e o, Fmt0.cexp m o (Fmt0.cexp m o e) = Fmt0.cexp m o e.
 Proof. exact Fmt0Proof.cexp_idempotent. Qed.
 Print Assumptions C06_L0_call_form_pass_idempotent.
-(* ... and both passes together are idempotent on every program in which no unary minus is applied - through parentheses - to
-   something that starts with a unary minus: the tree format0 writes is a fixed point of format0's passes, so formatting it
+(* ... and both passes together are idempotent on every program in which no unary minus is written directly in front of
+   something that starts with a unary minus (`- -x`): the tree format0 writes is a fixed point of format0's passes, so formatting it
    again gives the same bytes (conditions included: every layer of parentheses around them goes in one pass) *)
 From SV Require Fmt0Idem ParensIdem.
 Theorem C06_L0_both_passes_idempotent_without_a_double_minus : forall c p,
@@ -77,3 +77,15 @@ Theorem C06_L0_condition_rule_is_the_regenerated_one : forall code e,
   Fmt0Idem.isparen (Fmt0Idem.core e) = false.
 Proof. exact CondProof.ncond_is_the_rule_after_the_regenerated_stripping. Qed.
 Print Assumptions C06_L0_condition_rule_is_the_regenerated_one.
+(* what format0 writes never holds such a minus - whatever it was given -, so formatting twice ALWAYS reaches a fixed point: a third pass
+   changes nothing, on every program and configuration (the listed finding costs exactly one extra pass) *)
+Theorem C06_L0_output_meets_the_idempotence_premise : forall c p, Fmt0.guard_free (Fmt0.norm0 c p) = true.
+Proof. exact Fmt0Idem.guard_free_norm0. Qed.
+Print Assumptions C06_L0_output_meets_the_idempotence_premise.
+Theorem C06_L0_second_pass_is_a_fixed_point : forall c p, Fmt0.norm0 c (Fmt0.norm0 c (Fmt0.norm0 c p)) = Fmt0.norm0 c (Fmt0.norm0 c p).
+Proof. exact Fmt0Idem.norm0_second_pass_is_a_fixed_point. Qed.
+Print Assumptions C06_L0_second_pass_is_a_fixed_point.
+Theorem C06_parenthesis_rule_second_pass_is_a_fixed_point : forall e c,
+  Parens.fmt_single c (Parens.fmt_single c (Parens.fmt_single c e)) = Parens.fmt_single c (Parens.fmt_single c e).
+Proof. exact ParensIdem.fmt_single_second_pass_is_a_fixed_point. Qed.
+Print Assumptions C06_parenthesis_rule_second_pass_is_a_fixed_point.
